@@ -43,6 +43,7 @@ func runC04(r *an.Run) {
 	c04AssociationByPosition(r)
 	matcherNumericConditions(r, "R13-length-decisions-on-measured-lengths")
 	slotIsTheRecordedSlot(r, "R14-a-rewrite-lands-in-the-slot-it-matched")
+	whoInterpretsAnElision(r, "R15-who-interprets-an-elision")
 }
 
 const tokIDENT = 4
